@@ -459,3 +459,15 @@ Section RecvMonitor.
       end
     end.
 End RecvMonitor.
+
+(** * C16 / C17: a configuration that was accepted never carries [--duplicate-packets N] with N >= 255 *)
+Definition lit_duplicate_packets : bytes :=
+  [45; 45; 100; 117; 112; 108; 105; 99; 97; 116; 101; 45; 112; 97; 99; 107; 101; 116; 115]. (* "--duplicate-packets" *)
+Definition dup_value_ok (v : bytes) : bool := match parse_bounded 255 v with Some _ => true | None => false end.
+Fixpoint okDupArgs (args : list bytes) : bool :=
+  match args with
+  | [] => true
+  | a :: r =>
+    (if bytes_eqb a lit_duplicate_packets then match r with v :: _ => dup_value_ok v | [] => false end else true)
+    && okDupArgs r
+  end.
